@@ -102,6 +102,7 @@ lyd_parse(const struct ly_ctx *ctx, const struct lysc_ext_instance *ext, struct 
 {
     LY_ERR r = LY_SUCCESS, rc = LY_SUCCESS;
     struct lyd_ctx *lydctx = NULL;
+    struct lyd_node *first = NULL;
     struct ly_set parsed = {0};
     uint32_t i, int_opts = 0;
     const struct ly_err_item *eitem;
@@ -110,9 +111,11 @@ lyd_parse(const struct ly_ctx *ctx, const struct lysc_ext_instance *ext, struct 
     assert(ctx && (parent || first_p));
 
     format = lyd_parse_get_format(in, format);
-    if (first_p) {
-        *first_p = NULL;
+    if (!first_p) {
+        /* the first parsed node is not returned */
+        first_p = &first;
     }
+    *first_p = NULL;
 
     /* remember input position */
     in->func_start = in->current;
@@ -155,26 +158,45 @@ lyd_parse(const struct ly_ctx *ctx, const struct lysc_ext_instance *ext, struct 
         }
     }
 
-    if (parent && parsed.count) {
+    if (parent) {
         /* use the first parsed node */
-        if (first_p) {
-            *first_p = parsed.dnodes[0];
-        } else {
-            first_p = &parsed.dnodes[0];
-        }
+        *first_p = parsed.count ? parsed.dnodes[0] : NULL;
     }
 
     if (!(parse_opts & LYD_PARSE_ONLY)) {
+        if (parent) {
+            /* parsed default nodes may be auto-deleted by the validation so forget them, meaning they are kept
+             * on an error just like the implicit nodes created by the validation */
+            i = 0;
+            while (i < parsed.count) {
+                if (parsed.dnodes[i]->flags & LYD_DEFAULT) {
+                    ly_set_rm_index_ordered(&parsed, i, NULL);
+                } else {
+                    ++i;
+                }
+            }
+        }
+
         if (ext) {
             /* special ext instance data validation */
             r = lyd_validate_ext(first_p, ext, val_opts, 0, &lydctx->node_when, &lydctx->node_types, &lydctx->meta_types,
                     &lydctx->ext_node, &lydctx->ext_val, NULL);
+            LY_CHECK_ERR_GOTO(r, rc = r, cleanup);
+        } else if (parent && parent->schema) {
+            /* validate only the children of the parent, not top-level data */
+            r = lyd_validate_children(parent, val_opts, &lydctx->node_when, &lydctx->node_types, &lydctx->meta_types,
+                    &lydctx->ext_node, &lydctx->ext_val);
             LY_CHECK_ERR_GOTO(r, rc = r, cleanup);
         } else {
             /* validate data */
             r = lyd_validate(first_p, NULL, ctx, val_opts, 0, &lydctx->node_when, &lydctx->node_types, &lydctx->meta_types,
                     &lydctx->ext_node, &lydctx->ext_val, NULL);
             LY_CHECK_ERR_GOTO(r, rc = r, cleanup);
+        }
+
+        if (parent) {
+            /* the first parsed node may have been auto-deleted */
+            *first_p = parsed.count ? parsed.dnodes[0] : NULL;
         }
     }
 
@@ -196,8 +218,8 @@ cleanup:
         } else {
             /* free everything */
             lyd_free_all(*first_p);
-            *first_p = NULL;
         }
+        *first_p = NULL;
     } else if (subtree_sibling) {
         rc = LY_ENOT;
     }
